@@ -244,7 +244,7 @@ func runC13(w *fw.Worker) {
 		}
 	}
 	// (f) documented examples
-	for _, ex := range corpus.DocExamples("/repo") {
+	for _, ex := range corpus.DocExamples(corpus.RepoDir()) {
 		if ex.Err != "" {
 			continue
 		}
